@@ -1,6 +1,6 @@
 (* C15 — diagnosis of the generated-table obligations: the offending entries by name (no proof involved). *)
 From Coq Require Import String List ZArith Bool.
-From V Require Import Model.C15_Config Model.C15_Valid Gen.ConfigSchemas.
+From V Require Import Model.C15_Config Model.C15_Valid Gen.ConfigSchemas Gen.ConfigValidators.
 Import ListNotations.
 Open Scope string_scope.
 
@@ -11,11 +11,13 @@ Definition diag_default_valid := Eval vm_compute in
   flat_map (fun S => if validator_of (sname S) (fun _ => true) (cget S (defaults S)) then [] else [sapp "default invalid: " (sname S)]) all_schemas.
 Print diag_default_valid.
 
-Definition diag_validators_pinned := Eval vm_compute in
-  flat_map (fun S => match assoc_get (sname S) expected_valid_hash with
-                     | Some h => if String.eqb h (svalid_hash S) then [] else [sapp "Validate source changed, re-transcribe Model/C15_Valid.v: " (sapp (sname S) (sapp " now " (svalid_hash S)))]
-                     | None => [sapp "no validator transcription for section " (sname S)] end) all_schemas.
-Print diag_validators_pinned.
+(* sections whose translated Validate() is not the model's validator: the clauses that differ *)
+Definition diag_validators_source_is_model := Eval vm_compute in
+  flat_map (fun S => match assoc_get (sname S) gen_clause_table, assoc_get (sname S) model_clauses with
+                     | Some g, Some m => clause_diag (sname S) g m
+                     | None, _ => [sapp "no translated Validate() for section " (sname S)]
+                     | _, None => [sapp "no model clauses for section " (sname S)] end) all_schemas.
+Print diag_validators_source_is_model.
 
 Definition diag_customs_pinned := Eval vm_compute in
   flat_map (fun S => flat_map (fun '(id, h) => match assoc_get id expected_custom_hash with
@@ -27,3 +29,5 @@ Definition size_sections := Eval vm_compute in length all_schemas.
 Print size_sections.
 Definition size_members := Eval vm_compute in length (flat_map sfields all_schemas).
 Print size_members.
+Definition size_validate_clauses := Eval vm_compute in length (flat_map snd gen_clause_table).
+Print size_validate_clauses.
